@@ -17,7 +17,7 @@ RULE = ('case = (key shape: primary algorithm, subkey, protection state) x histo
         '(fresh and held-from-earlier) is compared with the public projection; non-trivial = the history contains at least one operation after the held '
         'twin was derived; distinct = distinct (shape, history) descriptors')
 ASSUMPTIONS = ['vf.ref packet splitter and key-grammar parser', 'secret integers shorter than 8 octets are not scanned for']
-MIN_COUNTERS = {'quick': {'states_checked': 150, 'fresh_twin_matches': 150, 'private_ops_refused': 300, 'secret_scans': 300, 'foreign_keys_loaded': 15},
+MIN_COUNTERS = {'quick': {'states_checked': 150, 'fresh_twin_matches': 150, 'private_ops_refused': 300, 'secret_scans': 300, 'foreign_keys_loaded': 15, 'key_level_signatures_by_other_keys': 20},
                 'thorough': {'states_checked': 3000}}
 BUDGET = {'quick': (600, 1500), 'thorough': (1800, 3600)}
 TECHNIQUE = 'runtime monitoring: history monitor; exports compared with the public projection computed by an independent parser; secret-octet scan; refusal matrix'
@@ -25,7 +25,8 @@ TECHNIQUE = 'runtime monitoring: history monitor; exports compared with the publ
 SHAPES = [('ed25519_1', 'ecdh_p256_1+kdf10.9'), ('ecdsa_p384_0', 'cv25519_1+kdf9.8'), ('ed25519_0', 'cv25519_0'), ('rsa1024_0', 'rsa1024_1'), ('ecdsa_p256_0', 'ecdh_p256_0'), ('dsa1024_0', 'ed25519_1'), ('ecdsa_k256_0', 'ecdh_k256_0'), ('rsa2048_0', None),
           # public points whose coordinates both begin with a zero octet (one P-521 key in four): the width is that of the curve, not of the value
           ('ecdsa_p521_short', 'ecdh_p521_short'), ('ecdsa_p256_short', 'ecdh_p521_short')]
-OPS = ['add_uid', 'add_ua', 'add_subkey', 'third_party', 'revoke_uid', 'revoke_subkey', 'revoke_key', 'direct', 'del_uid', 'recertify', 'protect', 'nonexportable', 'lapsed_cert']
+OPS = ['add_uid', 'add_ua', 'add_subkey', 'third_party', 'revoke_uid', 'revoke_subkey', 'revoke_key', 'direct', 'del_uid', 'recertify', 'protect', 'nonexportable', 'lapsed_cert',
+       'third_party_direct', 'designated_revocation']
 
 
 def cases(tier, seed):
@@ -204,6 +205,17 @@ def run_case(ctx, d):
                     k |= k.revoke(k)
                 elif op == 'direct':
                     k |= k.certify(k)
+                elif op == 'third_party_direct':
+                    # key-level signatures made by OTHER keys are part of the key as well: a direct-key signature by somebody else ...
+                    kp_ = copy.copy(k).pubkey
+                    k |= other.certify(kp_)
+                    ctx.count('key_level_signatures_by_other_keys')
+                elif op == 'designated_revocation':
+                    # ... and a revocation issued by the key's designated revoker
+                    k |= k.revoker(other.pubkey)
+                    kp_ = copy.copy(k).pubkey
+                    k |= other.revoke(kp_)
+                    ctx.count('key_level_signatures_by_other_keys')
                 elif op == 'del_uid' and len(k.userids) > 1:
                     k.del_uid(k.userids[-1].name)
                 elif op == 'recertify':
